@@ -1115,7 +1115,36 @@ func c16CtxFlow(r *core.Report) {
 				arg := c.Args[len(c.Args)-1]
 				k++
 				key := fmt.Sprintf("ctxflow:%s/%s#%d", core.FuncName(d), f.Name(), k)
-				if ctxInherits(info, ff, arg, ctx, 0) {
+				// the bare parent context where a stronger one was computed for this object
+				stronger := ""
+				if aid, ok := ast.Unparen(arg).(*ast.Ident); ok && info.ObjectOf(aid) == ctx {
+					ast.Inspect(d.Body, func(m ast.Node) bool {
+						blk, ok := m.(*ast.BlockStmt)
+						if !ok || c.Pos() < blk.Pos() || c.End() > blk.End() {
+							return true
+						}
+						for _, st := range blk.List {
+							as, ok := st.(*ast.AssignStmt)
+							if !ok || as.Tok != token.DEFINE || len(as.Lhs) != 1 || len(as.Rhs) != 1 || as.Pos() > c.Pos() {
+								continue
+							}
+							lid, ok := as.Lhs[0].(*ast.Ident)
+							if !ok {
+								continue
+							}
+							if b, isB := info.TypeOf(lid).Underlying().(*types.Basic); !isB || b.Kind() != types.Bool {
+								continue
+							}
+							if _, isBin := ast.Unparen(as.Rhs[0]).(*ast.BinaryExpr); isBin && ctxInherits(info, ff, as.Rhs[0], ctx, 0) {
+								stronger = lid.Name
+							}
+						}
+						return true
+					})
+				}
+				if stronger != "" {
+					r.Bad(key, p.Pos(c.Pos()), fmt.Sprintf("%s hands its own context %s down to %s although it has computed %s for the object at hand (= %s || the object is itself an external reference): what hangs below an object pulled in from another document is walked as if it belonged to this one, and its `#/components/...` references are left pointing at the wrong document's components", core.FuncName(d), ctx.Name(), f.Name(), stronger, ctx.Name()))
+				} else if ctxInherits(info, ff, arg, ctx, 0) {
 					r.OK(key, p.Pos(c.Pos()), "the nested walk inherits the context")
 				} else {
 					r.Bad(key, p.Pos(c.Pos()), fmt.Sprintf("%s hands `%s` down to %s as the external-document context, and that value does not depend on its own context %s: below an object of an external document that is not itself a reference (a path item of an external callback) the walk continues as if in the root document, and `#/components/...` references of the external document are left pointing at components the root does not have", core.FuncName(d), core.ExprStr(arg), f.Name(), ctx.Name()))
